@@ -6,6 +6,7 @@ use crate::engine::{CheckResult, Ctx, Evidence, Found};
 pub mod c01;
 pub mod c02;
 pub mod c03;
+pub mod c13;
 
 pub trait Property: Sync {
     fn id(&self) -> &'static str;
@@ -25,7 +26,7 @@ pub trait Property: Sync {
 }
 
 pub fn all() -> Vec<Box<dyn Property>> {
-    vec![Box::new(c01::C01), Box::new(c02::C02), Box::new(c03::C03)]
+    vec![Box::new(c01::C01), Box::new(c02::C02), Box::new(c03::C03), Box::new(c13::C13)]
 }
 
 pub fn get(id: &str) -> Option<Box<dyn Property>> {
